@@ -591,6 +591,9 @@ func runC07(c *Ctx) {
 		for _, sh := range c07BuildsShapes() {
 			emit("builds-"+sh.name, sh.t)
 		}
+		for _, sh := range c07ManyShapes() {
+			emit("many-"+sh.name, sh.t)
+		}
 		runC07E2E(c, func(gen string, in, obs Term, nt bool, tags ...string) { c.Case(gen, in, obs, nt, tags...) })
 	}
 	for _, st := range streams {
